@@ -118,8 +118,8 @@ func TestC37(t *testing.T) {
 	r.Rule("per run: a forked tree of 20-36 blocks and the protocol-following votes of 4 validators are split over 2 block feeders (competing branches), 3 vote senders, 2 transaction submitters and 4 readers running concurrently against one real node, GOMAXPROCS in {2,4,16}, seeded Gosched/sleeps at five yield points inside chain, casper and txpool; distinct = interleaving signature (hash of the order of yield-point events)")
 	r.Assume("the race detector only sees the interleavings that occurred; the stall detector needs 30 s without any completed operation and two identical dumps of the in-flight operations 10 s apart")
 
-	r.Cases("waiter-storm", r.N(10, 200), func(c *ev.Case) { waiterStorm(c, net, g, base) })
-	r.Floor("block_waiters_fired", 5000)
+	r.Cases("waiter-storm", r.N(20, 300), func(c *ev.Case) { waiterStorm(c, net, g, base) })
+	r.Floor("block_waiters_fired", 10000)
 
 	r.Cases("runs", r.N(60, 1200), func(c *ev.Case) {
 		rng := c.Rand
